@@ -114,7 +114,7 @@ def project_for(k1, k2):
 
 def lite(obs, k):
     rep = obs.reports[k]
-    return {"exit": obs.exits[k], "tree": obs.after[k], "results": None if rep is None else rep.get("results"), "logs": obs.logs[k]}
+    return {"exit": obs.exits[k], "tree": obs.after[k], "results": None if rep is None else rep.get("results"), "logs": obs.logs[k], "report": rep}
 
 
 def pair_job(arg):
